@@ -268,6 +268,17 @@ class Gen:
         if r.random() < cfg["p_attrs"]:
             for _ in range(r.randrange(1, 3)):
                 nm = self.names.fresh(taken)
+                leaves = [it for it in items if not isinstance(it, Group) and it.kind == "element"]
+                import random as _random
+                side = _random.Random("attr-like-element:" + nm.xml + "|".join(it.name.xml for it in leaves))
+                if leaves and not any(a.name.snake in {it.name.snake for it in leaves} for a in attrs) \
+                        and side.random() < cfg.get("p_attr_named_like_element", 0.1):
+                    # an attribute called like one of the elements next to it, in the same or in another spelling (Region / region):
+                    # separate symbol spaces in XSD, one field name in Rust
+                    e = side.choice(leaves)
+                    st = side.choice([x for x in ("pascal", "camel", "snake") if x != e.name.style] + [e.name.style])
+                    nm = Name(e.name.words, st)
+                    self.features.add("attribute-named-like-an-element")
                 t = self.pick_simple_target(fidx)
                 if not t.builtin and not self.cfg.get("attr_named_simple", True):
                     t = TypeRef(r.choice(list(BUILTINS)))
@@ -507,6 +518,7 @@ class Gen:
         if r2_twin(self) < cfg.get("p_twin", 0.0):
             self.add_twin()
         self.rebind_prefix_on_components()
+        self.members_declare_prefixes()
         self.spell_defaults()
         ss = SchemaSet(self.files, self.files[0].filename, None, self.features)
         if cfg["wsdl"]:
@@ -614,6 +626,44 @@ class Gen:
                 f.imports.insert(f.imports.index(a.idx) + 1, bidx)
                 f.prefixes[bidx] = next(p for p in avail if p not in f.prefixes.values() and p != f.xs_prefix)
         self.features.add("twin-file")
+
+    def members_declare_prefixes(self):
+        """Lexical variation: some members bind the prefix of their type / ref on their own start tag, under a prefix nothing else
+        in the file declares (q1, q2, … — the way .NET writes schemas), sometimes the same prefix for different namespaces on
+        neighbouring members."""
+        import random
+        prob = self.cfg.get("p_member_declares_prefix", 0.12)
+        if not prob:
+            return
+        r2 = random.Random("member-xmlns:" + "|".join(c.name.xml for f in self.files for c in f.components))
+        for f in self.files:
+            if r2.random() >= 0.5:
+                continue
+            taken = set(f.prefixes.values()) | {f.xs_prefix}
+            n = [0]
+
+            def walk(g):
+                for it in g.items:
+                    if isinstance(it, Group):
+                        walk(it)
+                        continue
+                    t = it.ref if it.kind == "ref" else it.type
+                    if t.builtin or self.files[t.file].uri is None or r2.random() >= prob * 2:
+                        continue
+                    if r2.random() < 0.3:
+                        pfx = "q"                      # one prefix, bound anew by each member that uses it
+                    else:
+                        n[0] += 1
+                        pfx = f"q{n[0]}"
+                    if pfx in taken:
+                        continue
+                    it.own_prefix = (pfx, self.files[t.file].uri)
+                    self.features.add("member-declares-its-own-prefix")
+
+            for c in f.components:
+                content = getattr(c, "content", None)
+                if content is not None and content.group is not None:
+                    walk(content.group)
 
     def rebind_prefix_on_components(self):
         """Lexical variation of prefix bindings inside one file: a component binds, on its own start tag, a prefix that the schema
